@@ -555,7 +555,9 @@ impl<'de> de::Deserializer<'de> for Value {
             Value::Integer(n) => visitor.visit_i64(n),
             Value::Float(n) => visitor.visit_f64(n),
             Value::String(v) => visitor.visit_string(v),
-            Value::Datetime(v) => visitor.visit_string(v.to_string()),
+            // Same shape as when deserializing from text, so `Datetime` fields (and
+            // `Value::Datetime` itself) survive the trip through `Value`
+            Value::Datetime(v) => visitor.visit_map(DatetimeDeserializer { date: Some(v) }),
             Value::Array(v) => {
                 let len = v.len();
                 let mut deserializer = SeqDeserializer::new(v);
@@ -1408,7 +1410,46 @@ impl ser::SerializeStruct for ValueSerializeMap {
     }
 
     fn end(self) -> Result<Value, crate::ser::Error> {
-        ser::SerializeMap::end(self)
+        let table = self.ser.end()?;
+        // A `Datetime` serializes itself as a struct with a single private field
+        if table.len() == 1 {
+            if let Some(Value::String(s)) = table.get(datetime::FIELD) {
+                if let Ok(date) = s.parse::<Datetime>() {
+                    return Ok(Value::Datetime(date));
+                }
+            }
+        }
+        Ok(Value::Table(table))
+    }
+}
+
+struct DatetimeDeserializer {
+    date: Option<Datetime>,
+}
+
+impl<'de> de::MapAccess<'de> for DatetimeDeserializer {
+    type Error = crate::de::Error;
+
+    fn next_key_seed<K>(&mut self, seed: K) -> Result<Option<K::Value>, crate::de::Error>
+    where
+        K: de::DeserializeSeed<'de>,
+    {
+        if self.date.is_some() {
+            seed.deserialize(de::value::BorrowedStrDeserializer::new(datetime::FIELD))
+                .map(Some)
+        } else {
+            Ok(None)
+        }
+    }
+
+    fn next_value_seed<V>(&mut self, seed: V) -> Result<V::Value, crate::de::Error>
+    where
+        V: de::DeserializeSeed<'de>,
+    {
+        match self.date.take() {
+            Some(date) => seed.deserialize(date.to_string().into_deserializer()),
+            None => panic!("next_value_seed called before next_key_seed"),
+        }
     }
 }
 
